@@ -451,6 +451,11 @@ func (w *csWorld) legacyParamChange(c sdk.Context, p coinswaptypes.Params) error
 		if err != nil {
 			return err
 		}
+		if cn, isCoin := kv.val.(sdk.Coin); isCoin && !cn.Amount.IsNil() {
+			// amino JSON omits an empty denomination and Subspace.Update decodes the JSON over the value stored before
+			// (the old denomination would survive): spell the submitted value out in full
+			bz = []byte(fmt.Sprintf(`{"denom":%q,"amount":%q}`, cn.Denom, cn.Amount.String()))
+		}
 		changes = append(changes, paramproposal.NewParamChange(coinswaptypes.ModuleName, kv.key, string(bz)))
 	}
 	h := params.NewParamChangeProposalHandler(w.a.ParamsKeeper)
